@@ -296,7 +296,7 @@ def wide_ddl_phase(chk):
         sig = "wide_ddl:%s:%s:after_%s" % (d["what"], h[-1]["op"]["k"], ddl_before[-1])
         sigs[sig] = sigs.get(sig, 0) + 1
         chk.classify(sig, {"behaviour": widetable.describe(h), "wide_hist": h, "wide_ddl": True, "detail": d})
-    if st["steps"] and st["abandoned"] > 0.5 * st["steps"]:
+    if st["steps"] and st["abandoned"] > 0.5 * st["steps"] and not chk.violations:       # (an unlisted divergence explains the loss itself)
         raise vlib.ToolError("more than half of the WideTable DDL steps were abandoned")
     chk.cov["wide_ddl"] = dict(st, walks=len(dh), indexes_created_on_100_rows_or_more=late, signatures=sigs, sample=widetable.describe(dh[0]))
     chk.mark("wide_ddl")
